@@ -269,25 +269,25 @@ headers, kinds of statements and the names they bind) they had when the model wa
 loop, early exit or rebinding has been added that the model does not describe -/
 theorem modelled_functions_have_the_transcribed_shape :
     MlVerif.Gen.C06.shapeLloyd =
-      "random_state=;sample_weight=;(best_labels,best_inertia,best_centers)=;centers=;if(verbose){call print};distances=;X_sort_index=;for(i in range(max_iter)){centers_old=;(labels,inertia)=;centers=;if(verbose){call print};if(best_inertia is None or inertia < best_inertia){best_labels=;best_centers=;best_inertia=};center_shift_total=;if(center_shift_total <= tol){if(verbose){call print};break}};if(center_shift_total > 0){(best_labels,best_inertia)=};return" ∧
+      "sig(norm, X, sample_weight, n_clusters, max_iter=300, init='k-means++', verbose=False, random_state=None, tol=0.0001)|random_state=;sample_weight=;(best_labels,best_inertia,best_centers)=;centers=;if(verbose){call print};distances=;X_sort_index=;for(i in range(max_iter)){centers_old=;(labels,inertia)=;centers=;if(verbose){call print};if(best_inertia is None or inertia < best_inertia){best_labels=;best_centers=;best_inertia=};center_shift_total=;if(center_shift_total <= tol){if(verbose){call print};break}};if(center_shift_total > 0){(best_labels,best_inertia)=};return" ∧
     MlVerif.Gen.C06.shapeCentersDense =
-      "dtype=;n_features=;n_samples=;centers=;weight_in_cluster=;for(i in range(n_samples)){c=;weight_in_cluster[]Add=};empty_clusters=;if(len(empty_clusters) > 0){far_from_centers=;for((i,cluster_id) in enumerate(empty_clusters)){far_index=;new_center=;centers[]=;weight_in_cluster[]=}};if(sample_weight.min() == sample_weight.max()){for(i in range(n_clusters)){sub=;if(sub.shape[0] == 0){continue};med=;centers[]=}}else{raise};return" ∧
+      "sig(X, sample_weight, labels, n_clusters, distances, X_sort_index)|dtype=;n_features=;n_samples=;centers=;weight_in_cluster=;for(i in range(n_samples)){c=;weight_in_cluster[]Add=};empty_clusters=;if(len(empty_clusters) > 0){far_from_centers=;for((i,cluster_id) in enumerate(empty_clusters)){far_index=;new_center=;centers[]=;weight_in_cluster[]=}};if(sample_weight.min() == sample_weight.max()){for(i in range(n_clusters)){sub=;if(sub.shape[0] == 0){continue};med=;centers[]=}}else{raise};return" ∧
     MlVerif.Gen.C06.shapeLabelsInertia =
-      "if(norm == 'l2'){return};sample_weight=;if(distances is None){distances=};if(issparse(X)){raise};return" ∧
+      "sig(norm, X, sample_weight, centers, distances=None)|if(norm == 'l2'){return};sample_weight=;if(distances is None){distances=};if(issparse(X)){raise};return" ∧
     MlVerif.Gen.C06.shapeInitCentroids =
-      "random_state=;n_samples=;if(init_size is not None and init_size < n_samples){if(init_size < k){call warn;init_size=};init_indices=;X=;n_samples=}else{if(n_samples < k){raise}};if(isinstance(init, str) and init == 'k-means++'){centers=}else{if(isinstance(init, str) and init == 'random'){seeds=;centers=}else{if(hasattr(init, '__array__')){centers=}else{if(callable(init)){centers=;centers=}else{raise}}}};if(issparse(centers)){centers=};def _validate_center_shape{assert;assert};call _validate_center_shape;return" ∧
+      "sig(norm, X, k, init, random_state=None, init_size=None)|random_state=;n_samples=;if(init_size is not None and init_size < n_samples){if(init_size < k){call warn;init_size=};init_indices=;X=;n_samples=}else{if(n_samples < k){raise}};if(isinstance(init, str) and init == 'k-means++'){centers=}else{if(isinstance(init, str) and init == 'random'){seeds=;centers=}else{if(hasattr(init, '__array__')){centers=}else{if(callable(init)){centers=;centers=}else{raise}}}};if(issparse(centers)){centers=};def _validate_center_shape{assert;assert};call _validate_center_shape;return" ∧
     MlVerif.Gen.C06.shapeFit =
-      "if(self.norm == 'L2'){call fit}else{if(self.norm == 'L1'){call _fit_l1}else{raise}};return" ∧
+      "sig(self, X, y=None, sample_weight=None)|if(self.norm == 'L2'){call fit}else{if(self.norm == 'L1'){call _fit_l1}else{raise}};return" ∧
     MlVerif.Gen.C06.shapeFitL1 =
-      "random_state=;n_init=;if(n_init <= 0){raise};if(self.max_iter <= 0){raise};order=;X=;self.n_features_in_=;if(_num_samples(X) < self.n_clusters){raise};tol=;init=;if(hasattr(init, '__array__')){init=;if(hasattr(self, '_validate_center_shape')){call _validate_center_shape};if(n_init != 1){call warn;n_init=}};(best_labels,best_inertia,best_centers)=;algorithm=;if(self.n_clusters == 1){algorithm=};if(algorithm == 'lloyd'){kmeans_single=}else{raise};seeds=;for(seed in seeds){(labels,inertia,centers,n_iter_)=;if(best_inertia is None or inertia < best_inertia){best_labels=;best_centers=;best_inertia=;best_n_iter=}};distinct_clusters=;if(distinct_clusters < self.n_clusters){call warn};self.cluster_centers_=;self.labels_=;self.inertia_=;self.n_iter_=;return" ∧
+      "sig(self, X, y=None, sample_weight=None)|random_state=;n_init=;if(n_init <= 0){raise};if(self.max_iter <= 0){raise};order=;X=;self.n_features_in_=;if(_num_samples(X) < self.n_clusters){raise};tol=;init=;if(hasattr(init, '__array__')){init=;if(hasattr(self, '_validate_center_shape')){call _validate_center_shape};if(n_init != 1){call warn;n_init=}};(best_labels,best_inertia,best_centers)=;algorithm=;if(self.n_clusters == 1){algorithm=};if(algorithm == 'lloyd'){kmeans_single=}else{raise};seeds=;for(seed in seeds){(labels,inertia,centers,n_iter_)=;if(best_inertia is None or inertia < best_inertia){best_labels=;best_centers=;best_inertia=;best_n_iter=}};distinct_clusters=;if(distinct_clusters < self.n_clusters){call warn};self.cluster_centers_=;self.labels_=;self.inertia_=;self.n_iter_=;return" ∧
     MlVerif.Gen.C06.shapePredict =
-      "if(self.norm == 'L2'){return};if(self.norm == 'L1'){return};raise" ∧
+      "sig(self, X, sample_weight=None)|if(self.norm == 'L2'){return};if(self.norm == 'L1'){return};raise" ∧
     MlVerif.Gen.C06.shapePredictL1 =
-      "(labels,mindist)=;labels=;if(return_distances){return};return" ∧
+      "sig(self, X, sample_weight=None, return_distances=False)|(labels,mindist)=;labels=;if(return_distances){return};return" ∧
     MlVerif.Gen.C06.shapeTransform =
-      "if(self.norm == 'L2'){return};if(self.norm == 'L1'){return};raise" ∧
+      "sig(self, X)|if(self.norm == 'L2'){return};if(self.norm == 'L1'){return};raise" ∧
     MlVerif.Gen.C06.shapeTransformL1 =
-      "call check_is_fitted;X=;return" :=
+      "sig(self, X)|call check_is_fitted;X=;return" :=
   ⟨rfl, rfl, rfl, rfl, rfl, rfl, rfl, rfl, rfl, rfl⟩
 
 /-! ### non-vacuity: concrete instances satisfying the hypotheses -/
